@@ -197,8 +197,8 @@ def init_protocol(prop, res, fat_functions, fat_thresholds, fat_c_text):
 def trampoline(prop, res, text):
     """The first call of each dispatched routine lands in FAT_INIT, which calls __gmpn_cpuvec_init and then jumps to the routine that was
     installed - with the ORIGINAL arguments.  So the trampoline has to save all six integer argument registers (mpn_preinv_divrem_1,
-    mpn_add_err1_n, ... take six) around the call and restore them in mirror order.  m4 text of a file the pinned build never
-    assembles; checked on the text of the FAT_INIT definition."""
+    mpn_add_err1_n, ... take six) around the call and restore them (pushes / pops in mirror order, or moves to and from the frame).
+    m4 text of a file the pinned build never assembles; checked on the text of the FAT_INIT definition."""
     F = res["findings"]
     src = os.path.join(REPO, "mpn/x86_64/fat/fat_entry.asm")
     m = re.search(r"define\(FAT_INIT,(.*?)\ndnl\s+FAT_INIT for each", text, re.S)
@@ -206,30 +206,46 @@ def trampoline(prop, res, text):
         raise AnalysisBroken("R-FATTAB: the FAT_INIT definition was not found in fat_entry.asm")
     body = m.group(1)
     line0 = text[:m.start(1)].count("\n") + 1
-    pushes = re.findall(r"^\s*pushq?\s+%(\w+)", body, re.M)
     calls = list(re.finditer(r"^\s*call\s+.*__gmpn_cpuvec_init.*$", body, re.M))
-    if not calls or len(pushes) < 4:
-        raise AnalysisBroken("R-FATTAB: FAT_INIT has %d pushes and %d calls of __gmpn_cpuvec_init: anchors moved" % (len(pushes), len(calls)))
+    if not calls:
+        raise AnalysisBroken("R-FATTAB: FAT_INIT has no call of __gmpn_cpuvec_init: anchors moved")
     need = ["rdi", "rsi", "rdx", "rcx", "r8", "r9"]
-    res["stats"]["comparisons"] += len(need)
-    for r_ in need:
-        if r_ not in pushes:
-            F.append(Finding(prop, "R-FATTAB", src, line0, "FAT_INIT", "trampoline-arg-not-saved:%s" % r_,
-                             "FAT_INIT does not save %%%s around the call of __gmpn_cpuvec_init: the init routine may clobber this caller-saved "
-                             "argument register, and the dispatched routine then starts with a garbage argument on the first call" % r_))
+    SAVE = re.compile(r"^\s*(?:pushq?\s+%(\w+)|movq?\s+%(\w+)\s*,\s*-?\w*\(%rsp\))", re.M)
+    REST = re.compile(r"^\s*(?:popq?\s+%(\w+)|movq?\s+-?\w*\(%rsp\)\s*,\s*%(\w+))", re.M)
+    shared = []
+    prev_end = 0
     for i, c in enumerate(calls):
         end = calls[i + 1].start() if i + 1 < len(calls) else len(body)
-        seg = body[c.end():end]
-        pops = []
-        for ln in seg.split("\n"):
-            mm = re.match(r"^\s*popq?\s+%(\w+)", ln)
-            if mm:
-                pops.append(mm.group(1))
-            elif pops and ln.strip() and not ln.strip().startswith(("C ", "dnl", "#")):
-                break
+        before, after = body[prev_end:c.start()], body[c.end():end]
+        saves = list(SAVE.finditer(before))
+        saved = [mm.group(1) or mm.group(2) for mm in saves]
+        if i > 0:
+            # a later variant (non-PIC after PIC) starts after the previous variant's restores: only what follows them counts; if it has no
+            # saves of its own it shares the ones written before the ifdef
+            rest_prev = list(REST.finditer(before))
+            if rest_prev:
+                tail = before[rest_prev[-1].end():]
+                saves = list(SAVE.finditer(tail))
+                saved = [mm.group(1) or mm.group(2) for mm in saves]
+            if not saved:
+                saved = shared
+        shared = saved or shared
+        rests = list(REST.finditer(after))
+        restored = [mm.group(1) or mm.group(2) for mm in rests]
+        if len(restored) > len(saved):
+            restored = restored[:len(saved)]       # what follows belongs to the next variant
+        res["stats"]["comparisons"] += len(need)
+        for r_ in need:
+            if r_ not in saved or r_ not in restored:
+                F.append(Finding(prop, "R-FATTAB", src, line0 + body[:c.start()].count("\n"), "FAT_INIT", "trampoline-arg-not-saved:%s" % r_,
+                                 "FAT_INIT does not save and restore %%%s around call %d of __gmpn_cpuvec_init: the init routine may clobber this "
+                                 "caller-saved argument register, and the dispatched routine then starts with a garbage argument on the first call"
+                                 % (r_, i + 1)))
+        only_stack = all(mm.group(1) for mm in saves) and all(mm.group(1) for mm in rests[:len(saved)]) and saves
         res["stats"]["comparisons"] += 1
-        if pops != list(reversed(pushes)):
+        if only_stack and restored != list(reversed(saved)):
             F.append(Finding(prop, "R-FATTAB", src, line0 + body[:c.start()].count("\n"), "FAT_INIT", "trampoline-restore-order:%d" % i,
                              "after call %d of __gmpn_cpuvec_init FAT_INIT pops %s, which is not the mirror image of its pushes %s: some register "
-                             "comes back with another register's value" % (i + 1, pops, pushes)))
-    res["samples"].append(dict(rule="R-FATTAB.trampoline", pushes=pushes, calls=len(calls)))
+                             "comes back with another register's value" % (i + 1, restored, saved)))
+        prev_end = c.end()
+    res["samples"].append(dict(rule="R-FATTAB.trampoline", saved=shared, calls=len(calls)))
